@@ -246,7 +246,7 @@ def rules(ctx, db):
             ctx.ob("R6", "notify-only-on-ready:" + f.name,
                    bool(nt) and all(guarded_by_variant(f, bb, r"::Carry::operate$", 0) is not None for bb in nt),
                    "an entry is completed only when operate() returned Ready", f)
-            sf = [bb for bb, _ in calls(f, r"poll::Driver::submit_front$")]
+            sf = Summaries(db, r"poll::Driver::submit_front$", depth=2).event_blocks(f, "may")   # directly or in a private helper
             ctx.ob("R6", "pending-requeued-at-front:" + f.name,
                    bool(sf) and all(guarded_by_variant(f, bb, r"::Carry::operate$", 1) is not None for bb in sf),
                    "an op whose operate() is still Pending is put back at the front of its queues", f)
